@@ -125,7 +125,109 @@ class RandomOneHot(Contract):
     advances; invalid probabilities (uninterpreted predicate probs.valid) are rejected."""
     qualname = 'tangermeme.utils.random_one_hot'
     props = ('C01',)
-    assumed = True
+    use_at_calls = True
+
+    # ---- verification of the definition against its body: result[b, c, p] = [c == CHOICE(tape, pos0 + b, p)] - row b
+    # ---- is draw number pos0 + b of the generator (RandomState.choice, assumed: values in [0, n)), hence one-hot with
+    # ---- exactly the requested shape; the generator advances by one draw per example.  The call-site form above
+    # ---- counts positions in calls instead of draws (RNDOH(tape, k, b, p) = CHOICE(tape, pos0 + k*B + b, p)).
+    def configs(self):
+        return [dict(rs=r, probs=pr) for r in ('int', 'rng', 'none') for pr in ('none', 'given')] + [dict(rs='int', probs='none', shape='list')]
+
+    def scopes(self, cfg):
+        return [{'default': 2}, {'default': 1}, {'default': 3}]
+
+    def make_args(self, cfg, A):
+        B, n, L = A.dim('B', 0), A.dim('n', 1), A.dim('L', 0)
+        shape = (B, n, L) if cfg.get('shape') != 'list' else [B, n, L]
+        probs = None
+        if cfg['probs'] == 'given':
+            probs = A.tensor('probs', 2, 'real', lib='np', shape=[A.dim('P0', 1), A.dim('P1', 0)])
+        rs = {'int': lambda: A.int('seed'), 'none': lambda: None,
+              'rng': lambda: Opaque('rng', 'rng', {'tape': A.int('tape'), 'pos': A.int('pos0', lo=0), 'types': ['numpy.random.RandomState']})}[cfg['rs']]()
+        if isinstance(rs, Opaque):
+            rs.attrs['_entry_pos'] = rs.attrs['pos']
+        return [shape], dict(probs=probs, random_state=rs)
+
+    def rejects(self, a, cfg):
+        if not isinstance(a.shape, tuple):
+            return True
+        B, n, L = a.shape
+        P = a.get('probs')
+        if P is None:
+            return False
+        # an example is drawn only when there is one; its row of probabilities must exist, have one entry per
+        # character and be a distribution
+        return And(B >= 1, Or(Not(z3.Bool('probs.valid')), O.ne(P.shape[1], n), And(O.ne(P.shape[0], 1), P.shape[0] < B)))
+
+    def accepts(self, a, cfg):
+        return Not(self.rejects(a, cfg))
+
+    def tape_pos(self, a):
+        rs = a.random_state
+        if isinstance(rs, Opaque):
+            return rs.attrs['tape'], rs.attrs['_entry_pos']
+        if rs is None:
+            return None, 0
+        return rs, 0
+
+    def result(self, a, cfg):
+        from vf.world import CHOICE
+        tape, pos0 = self.tape_pos(a)
+        if tape is None:
+            return NotImplemented
+        B, n, L = a.shape
+        return spec_tensor([B, n, L], lambda b, c, p: ite(O.eq(c, CHOICE(O.to_z3(tape), O.to_z3(pos0 + b), O.to_z3(p))), 1, 0))
+
+    def post(self, a, r, cfg):
+        from vf.spec import is_onehot
+        out = [('is-torch-tensor', isinstance(r, Tn) and r.lib == 'torch' and r.rank == 3)]
+        if not out[0][1]:
+            return out
+        out.append(('requested-shape', And(*[O.eq(x, y) for x, y in zip(r.shape, a.shape)])))
+        out.append(('valid-one-hot', is_onehot(r, ohe_dim=1)))
+        rs = a.random_state
+        if isinstance(rs, Opaque):
+            out.append(('generator-advanced-one-draw-per-example', O.eq(rs.attrs['pos'], rs.attrs['_entry_pos'] + a.shape[0])))
+        return out
+
+    def loops(self):
+        from vf.world import defined_loop, CHOICE
+
+        def state(fr):
+            rs = fr.env['random_state']
+            if '_pos0' not in rs.attrs:
+                rs.attrs['_pos0'] = rs.attrs['pos']
+            return fr.env['shape'], rs
+
+        def ohe(fr, it):
+            sh, rs = state(fr)
+            tape, pos0 = O.to_z3(rs.attrs['tape']), rs.attrs['_pos0']
+            return spec_tensor(list(sh), lambda b, c, p: ite(And(b < it, O.eq(c, CHOICE(tape, O.to_z3(pos0 + b), O.to_z3(p)))), 1, 0), lib='np')
+
+        def rng_state(fr, v, it):
+            sh, rs = state(fr)
+            rs.attrs['pos'] = rs.attrs['_pos0'] + it
+            qj, q = z3.Ints('cqj cq')
+            tape, pos0 = O.to_z3(rs.attrs['tape']), O.to_z3(rs.attrs['_pos0'])
+            # range facts of the draws made so far (postcondition of the assumed RandomState.choice)
+            fr.ctx.assume(z3.ForAll([qj, q], z3.Implies(z3.And(qj >= 0, qj < O.to_z3(it)),
+                                                       z3.And(CHOICE(tape, pos0 + qj, q) >= 0, CHOICE(tape, pos0 + qj, q) < O.to_z3(sh[1])))))
+            return rs
+
+        def extra(E, fr):
+            rs = E.random_state
+            p0 = rs.attrs.get('_pos0', rs.attrs['pos'])
+            out = [('rng-position', O.eq(rs.attrs['pos'], p0 + E.it))]
+            P = E.probs
+            if P is not None:
+                # a completed iteration means its row of probabilities existed and the generator accepted it
+                out.append(('iterations-passed-validation', Implies(E.it >= 1, And(z3.Bool('probs.valid'), O.eq(P.shape[1], E.shape[1]),
+                                                                                   Or(O.eq(P.shape[0], 1), E.it <= P.shape[0])))))
+            return out
+        spec = defined_loop({'ohe': ohe}, extra=extra, extra_mutated=['random_state'])
+        spec.abstract['random_state'] = rng_state
+        return {1: spec}
 
     def apply_at_call(self, interp, rf, args, kwargs):
         from vf.world import make_rng
